@@ -6,6 +6,10 @@ SPECS = [
     ('TRUST_ALPHA', T, r'\balpha\s*:\s*([0-9_.]+)\s*,', 'Qdec'),
     ('TRUST_DECAY_RATE', T, r'\bdecay_rate\s*:\s*([0-9_.]+)\s*,', 'Qdec'),
     ('TRUST_MAX_ITERATIONS', T, r'const\s+MAX_ITERATIONS\s*:\s*usize\s*=\s*([0-9_]+)\s*;', 'N'),
+    # `if diff < CONVERGENCE_THRESHOLD && iteration + 1 >= MIN_ITERATIONS { break; }`: the convergence exit is
+    # taken only after MIN_ITERATIONS rounds; both constants disappear (fail-closed) when the guard is removed
+    ('TRUST_MIN_ITERATIONS', T, r'const\s+MIN_ITERATIONS\s*:\s*usize\s*=\s*([0-9_]+)\s*;', 'N'),
+    ('TRUST_MIN_ITER_OFFSET', T, r'if\s+diff\s*<\s*CONVERGENCE_THRESHOLD\s*&&\s*iteration\s*\+\s*([0-9_]+)\s*>=\s*MIN_ITERATIONS\s*\{\s*break\s*;', 'N'),
     ('TRUST_CONV_THRESHOLD', T, r'const\s+CONVERGENCE_THRESHOLD\s*:\s*f64\s*=\s*([0-9_.]+)\s*;', 'Qdec'),
     # `if n > 100 && iteration > 5 { break; } if n > 500 && iteration > 2 { break; } }`
     ('TRUST_CUT1_N', T, r'if\s+n\s*>\s*([0-9_]+)\s*&&\s*iteration\s*>\s*[0-9_]+\s*\{\s*break\s*;\s*\}\s*if\s+n\s*>', 'N'),
